@@ -1,5 +1,128 @@
 package props
 
+import (
+	"fmt"
+	"os"
+
+	"verif/harness/dec"
+	"verif/harness/gen"
+)
+
+// compareCompacted checks the records decoded from a compaction output against the
+// newest-wins overlay of the merged tables: a live record must be present exactly; a
+// tombstone must be present, or may be absent only if the range included the oldest
+// table; nothing else may be present.
+func compareCompacted(info *dec.Info, ti *tabInfo) []dec.Finding {
+	gotR := map[string]gen.Ref{}
+	for _, r := range info.Refs {
+		gotR[r.Name] = r
+	}
+	for k, w := range ti.refs {
+		g, ok := gotR[k]
+		if w.Kind == gen.KDel {
+			if !ok && ti.first == 0 {
+				continue
+			}
+			if !ok {
+				return []dec.Finding{{Rule: "compaction.tombstone-dropped", Msg: fmt.Sprintf("ref tombstone %q missing from a table compacted above older tables", k)}}
+			}
+		}
+		if !ok {
+			return []dec.Finding{{Rule: "compaction.records", Msg: fmt.Sprintf("ref %q missing from the compacted table", k)}}
+		}
+		if !g.Equal(&w) {
+			return []dec.Finding{{Rule: "compaction.records", Msg: fmt.Sprintf("compacted table has %s, want %s", g.Line(), w.Line())}}
+		}
+		delete(gotR, k)
+	}
+	for k := range gotR {
+		return []dec.Finding{{Rule: "compaction.records", Msg: fmt.Sprintf("compacted table holds unexpected ref %q", k)}}
+	}
+	gotL := map[gen.LogKey]gen.Log{}
+	for _, l := range info.Logs {
+		gotL[gen.LogKey{Name: l.Name, UI: l.UI}] = l
+	}
+	for k, w := range ti.logs {
+		g, ok := gotL[k]
+		if w.Del && !ok && ti.first == 0 {
+			continue
+		}
+		if !ok {
+			rule := "compaction.records"
+			if w.Del {
+				rule = "compaction.tombstone-dropped"
+			}
+			return []dec.Finding{{Rule: rule, Msg: fmt.Sprintf("log %q@%d missing from the compacted table", k.Name, k.UI)}}
+		}
+		if !g.Equal(&w) {
+			return []dec.Finding{{Rule: "compaction.records", Msg: fmt.Sprintf("compacted table has %s, want %s", g.Line(), w.Line())}}
+		}
+		delete(gotL, k)
+	}
+	for k := range gotL {
+		return []dec.Finding{{Rule: "compaction.records", Msg: fmt.Sprintf("compacted table holds unexpected log %q@%d", k.Name, k.UI)}}
+	}
+	return nil
+}
+
 // runC14Stacks feeds tables emitted through Stack.Add and by compaction to the decoder.
-// (filled in together with the stack workloads)
-func runC14Stacks(c *Ctx) {}
+func runC14Stacks(c *Ctx) {
+	r := c.Rep
+	n := c.N(250, 8000)
+	for idx := 0; idx < n; idx++ {
+		if !c.Mine(idx) {
+			continue
+		}
+		hooks := &historyHooks{}
+		hooks.onFile = func(path, desc string, ti *tabInfo, gcfg gen.Cfg) {
+			data, err := os.ReadFile(path)
+			if err != nil {
+				return // already compacted away
+			}
+			r.Evaluations++
+			cs := map[string]interface{}{"prop": "C14", "seed": c.Seed, "index": idx, "generator": "runHistory(stack part)", "cfg": gcfg.String(), "op": desc}
+			cfg := gcfg
+			origin := "compaction"
+			if ti.exact {
+				origin = "stack-add"
+			}
+			info, findings := dec.Decode(data, dec.Options{KnownCfg: &cfg})
+			if len(findings) == 0 {
+				if ti.exact {
+					var refs []gen.Ref
+					for _, x := range ti.refs {
+						refs = append(refs, x)
+					}
+					gen.SortRefs(refs)
+					var logs []gen.Log
+					for _, x := range ti.logs {
+						logs = append(logs, x)
+					}
+					gen.SortLogs(logs)
+					findings = dec.CompareRecords(info, refs, logs)
+				} else if ti.first >= 0 {
+					findings = compareCompacted(info, ti)
+				}
+				if len(findings) == 0 && info != nil && (info.Min != ti.min || info.Max != ti.max) {
+					findings = []dec.Finding{{Rule: "header.limits", Msg: fmt.Sprintf("header range [%d,%d], file name / merged range [%d,%d]", info.Min, info.Max, ti.min, ti.max)}}
+				}
+			}
+			r.Count("files_decoded", 1)
+			r.SetAdd("origins", origin)
+			if len(findings) > 0 {
+				msg := ""
+				for _, f := range findings {
+					msg += f.String() + "\n"
+				}
+				r.Violate([]string{"C14"}, origin+"|"+findings[0].Rule, msg, cs)
+				return
+			}
+			r.Count("blocks_decoded", len(info.Blocks))
+			r.Count(origin+"_files", 1)
+			if len(info.Blocks) >= 2 {
+				r.Nontrivial(hashBytes(data))
+			}
+		}
+		runHistory(c, "runHistory", idx, hooks)
+	}
+}
